@@ -701,6 +701,18 @@ func (b *bctx) newVerTwoDataTwoPtr() air.VerTwoDataTwoPtr {
 	return air.VerTwoDataTwoPtr{Struct: b.resized(s.Struct)}
 }
 
+func (b *bctx) newVerTwoPtr() air.VerTwoPtr {
+	s, err := air.NewVerTwoPtr(b.seg)
+	b.ck(err)
+	if b.r.Chance(3, 4) {
+		b.ck(s.SetPtr1(b.newVerOneData()))
+	}
+	if b.r.Chance(3, 4) {
+		b.ck(s.SetPtr2(b.newVerOneData()))
+	}
+	return air.VerTwoPtr{Struct: b.resized(s.Struct)}
+}
+
 func (b *bctx) newVerTwoTwoPlus() air.VerTwoTwoPlus {
 	s, err := air.NewVerTwoTwoPlus(b.seg)
 	b.ck(err)
